@@ -25,6 +25,17 @@ Proof.
   - injection H as <- <- <-. ex_refl.
 Qed.
 
+Lemma span_all_stop p l e :
+  snd (span p l) = [] -> match e with c :: _ => p c = false | [] => True end -> span p (l ++ e) = (l, e).
+Proof.
+  induction l as [|x l IH]; intros H He.
+  - cbn [app]. destruct e as [|c e']; [reflexivity|]. cbn [span]. rewrite He. reflexivity.
+  - cbn [span app] in *. destruct (p x); [|discriminate]. destruct (span p l) as [a t]. cbn [snd] in H.
+    rewrite (IH H He). reflexivity.
+Qed.
+Lemma span_all_fst p l : snd (span p l) = [] -> fst (span p l) = l.
+Proof. intros H. pose proof (span_app p l) as E. rewrite H, app_nil_r in E. auto. Qed.
+
 Section Stab.
 Variable ext : list N.
 
@@ -212,7 +223,9 @@ Qed.
    end of the buffer may grow (the block loop then answers Partial, so nothing is lost) *)
 Definition extends_l (r r' : rres rline) : Prop :=
   match r with
-  | ROk a o l' => (a = LSkip /\ l' = []) \/ r' = ROk a o (l' ++ ext)
+  | ROk a o l' => (a = LSkip /\ l' = [] /\
+                   (match ext with c :: _ => ws c = false | [] => True end -> r' = ROk a o ext))
+                  \/ r' = ROk a o (l' ++ ext)
   | RErr e => r' = RErr e
   | RPart => True
   end.
@@ -229,7 +242,11 @@ Proof.
   destruct (negb (tchar b)) eqn:Et.
   { destruct (allow_space_before_first_header_name hc && first && ws b) eqn:Esp.
     - destruct (span ws (b :: r)) as [w r'] eqn:Es.
-      destruct r' as [|c r'']; [left; split; ex_refl|].
+      destruct r' as [|c r''].
+      { left. split; [ex_refl|]. split; [ex_refl|]. intros He.
+        change (b :: r ++ ext) with ((b :: r) ++ ext).
+        pose proof (span_all_fst ws (b :: r) ltac:(rewrite Es; reflexivity)) as Hw. rewrite Es in Hw. cbn [fst] in Hw. subst w.
+        rewrite (span_all_stop ws (b :: r) ext); [reflexivity|rewrite Es; reflexivity|exact He]. }
       change (b :: r ++ ext) with ((b :: r) ++ ext). rewrite (span_ext _ _ _ _ _ _ Es). right. ex_refl.
     - apply extends_to_l. apply (ref_invalid_stable _ _ off (b :: r)). }
   destruct (span tchar (b :: r)) as [name r1] eqn:Es.
@@ -256,7 +273,7 @@ Proof.
   pose proof (ref_header_line_adv hc (null hs) off l) as Hadv.
   destruct (ref_header_line hc (null hs) off l) as [x o r| |e]; cbn [extends_l] in Hs.
   - destruct Hadv as [k (Hk0 & Hk & -> & ->)].
-    destruct Hs as [[-> Hnil]|Hs].
+    destruct Hs as [(-> & Hnil & _)|Hs].
     + (* the stripped whitespace reached the end of the buffer: the block is Partial there *)
       rewrite Hnil in H. destruct f as [|f0]; cbn [ref_header_block ref_header_line] in H;
         injection H as <- <-; destruct Hfin.
